@@ -179,7 +179,7 @@ def natoms(name):
     return len(_proto(name)[1])
 
 
-def make(name, order="asis", order_seed=0, int_shift=False, edge=False, rot_seed=None, ext_symbols=False, scale=1.0):
+def make(name, order="asis", order_seed=0, int_shift=False, edge=False, rot_seed=None, ext_symbols=False, scale=1.0, decimals=None):
     """Build the prototype and apply harmless re-descriptions of the same crystal."""
     L, pos, sym, pmat, system, mag = _proto(name)
     L = np.array(L, float) * scale
@@ -224,6 +224,10 @@ def make(name, order="asis", order_seed=0, int_shift=False, edge=False, rot_seed
     if ext_symbols:
         first = sym[0]
         sym = [s + "1" if s == first else s for s in sym]
+    if decimals is not None:
+        # the structure as read from a file written with a few decimals (lattice and positions rounded): symmetric only within ~10^-decimals
+        L = np.round(L, int(decimals))
+        pos = np.round(pos, int(decimals))
     return {"name": name, "cell": L.tolist(), "positions": pos.tolist(), "symbols": sym, "magmoms": mag,
             "pmat": pmat, "system": system}
 
